@@ -286,6 +286,124 @@ class Gated:
             pass
 
 
+class ForkedWorker:
+    """One of the workers forked by a single `bvf.child --fork` launcher: same stepping interface as Gated."""
+
+    def __init__(self, announce_r, grant_w, report_path):
+        self.announce_r = announce_r
+        self.grant_w = grant_w
+        self.report_path = report_path
+        self.buf = b""
+        self.pending = None
+        self.finished = False
+        self.steps = []
+
+    def wait_step(self, timeout=180.0):
+        if self.finished:
+            return None
+        deadline = time.time() + timeout
+        while True:
+            if b"\n" in self.buf:
+                line, self.buf = self.buf.split(b"\n", 1)
+                self.pending = line.decode("utf-8", "replace")
+                self.steps.append(self.pending)
+                return self.pending
+            left = deadline - time.time()
+            if left <= 0:
+                raise TimeoutError("worker did not announce a step")
+            r, _, _ = select.select([self.announce_r], [], [], min(left, 0.5))
+            if r:
+                data = os.read(self.announce_r, 4096)
+                if not data:
+                    self.finished = True
+                    self.pending = None
+                    return None
+                self.buf += data
+
+    def grant(self):
+        self.pending = None
+        try:
+            os.write(self.grant_w, b"go\n")
+        except OSError:
+            pass
+
+    def result(self):
+        rep = None
+        try:
+            with open(self.report_path) as f:
+                rep = parse_stdout(f.read())
+        except OSError:
+            pass
+        for fd in (self.announce_r, self.grant_w):
+            try:
+                os.close(fd)
+            except OSError:
+                pass
+        if rep is not None:
+            return ChildResult("completed", 0, rep, "", "")
+        return ChildResult("crashed", None, None, "", "")
+
+
+def run_forked_schedule(jobA, jobB, jobdir, choices, default=0):
+    """Like run_schedule, but the two definers are workers forked from ONE process that imported the library before forking."""
+    workers, jps, pass_fds = [], [], []
+    for i, job in enumerate((jobA, jobB)):
+        announce_r, announce_w = os.pipe()
+        grant_r, grant_w = os.pipe()
+        job = dict(job)
+        job["hooks"] = dict(job.get("hooks") or {}, mode="gate", announce_fd=announce_w, grant_fd=grant_r)
+        job["report_path"] = os.path.join(jobdir, "report_%d_%d_%d.txt" % (os.getpid(), _jobcount[0], i))
+        jps.append(write_job(job, jobdir))
+        pass_fds += [announce_w, grant_r]
+        workers.append(ForkedWorker(announce_r, grant_w, job["report_path"]))
+    proc = subprocess.Popen([sys.executable, "-m", "bvf.child", "--fork"] + jps, cwd=common.VERIF, env=child_env(),
+                            stdout=subprocess.PIPE, stderr=subprocess.PIPE, pass_fds=tuple(pass_fds))
+    for fd in pass_fds:
+        os.close(fd)
+    trace, decisions = [], []
+    timed_out = False
+    try:
+        for w in workers:
+            w.wait_step()
+        ci = 0
+        while True:
+            ready = [i for i, k in enumerate(workers) if k.pending is not None]
+            if not ready:
+                break
+            if len(ready) == 2:
+                pick = choices[ci] if ci < len(choices) else default
+                decisions.append(2)
+                ci += 1
+            else:
+                pick = ready[0]
+            k = workers[pick]
+            trace.append("%s:%s" % ("AB"[pick], k.pending.split(" ", 2)[-1] if k.pending else ""))
+            k.grant()
+            k.wait_step()
+    except TimeoutError:
+        timed_out = True
+        proc.kill()
+    try:
+        out, err = proc.communicate(timeout=180)
+    except subprocess.TimeoutExpired:
+        proc.kill()
+        out, err = proc.communicate()
+        timed_out = True
+    for jp in jps:
+        try:
+            os.remove(jp)
+        except OSError:
+            pass
+    ra, rb = workers[0].result(), workers[1].result()
+    err = err.decode("utf-8", "replace")
+    if timed_out:
+        ra = ChildResult("timeout", None, None, "", err)
+    else:
+        ra = ChildResult(ra.status, ra.rc, ra.report, "", err)
+        rb = ChildResult(rb.status, rb.rc, rb.report, "", err)
+    return ra, rb, trace, decisions
+
+
 def run_schedule(jobA, jobB, jobdir, choices, default=0):
     """Run two gated children under a schedule. `choices` is a list of 0/1 decisions taken at the
     successive decision points (both children blocked at a step); after it is exhausted `default`
